@@ -8,6 +8,7 @@ use super::{
         flow::FlowItem,
         list::{ListStyle, ListStylist},
     },
+    style::FoldStyle,
     util::is_comment_node,
     ArenaDoc, Context, PrettyPrinter,
 };
@@ -78,7 +79,14 @@ impl<'a> PrettyPrinter<'a> {
             return prefix_doc;
         }
 
-        let import_items_doc = self.convert_import_items(ctx, import_items_nodes);
+        // Do not break the items where breaks are suppressed, unless the source already does.
+        let fold_style =
+            if ctx.break_suppressed && !self.attr_store.is_multiline(import.to_untyped()) {
+                FoldStyle::Always
+            } else {
+                FoldStyle::Fit
+            };
+        let import_items_doc = self.convert_import_items(ctx, import_items_nodes, fold_style);
         if ends_with_line_comment {
             prefix_doc + import_items_doc
         } else {
@@ -90,6 +98,7 @@ impl<'a> PrettyPrinter<'a> {
         &'a self,
         ctx: Context,
         mut import_items_nodes: Vec<&'a SyntaxNode>,
+        fold_style: FoldStyle,
     ) -> ArenaDoc<'a> {
         // Sort import items if the configuration allows it.
         // The sorting is only applied if all nodes are not comments and if there are no duplicate names.
@@ -102,6 +111,7 @@ impl<'a> PrettyPrinter<'a> {
         }
         // Note that `ImportItem` does not implement `AstNode`.
         ListStylist::new(self)
+            .with_fold_style(fold_style)
             .process_iterable_impl(
                 ctx,
                 import_items_nodes.into_iter(),
